@@ -7,8 +7,8 @@ package main
 
 import (
 	"fmt"
-	"os"
 	"go/types"
+	"os"
 	"sort"
 	"strconv"
 	"strings"
@@ -55,7 +55,9 @@ type effWrite struct {
 	what   string
 }
 
-func (w effWrite) loc() Loc { return Loc{Kind: w.kind, Param: w.param, Global: w.global, Path: w.path, Why: w.what} }
+func (w effWrite) loc() Loc {
+	return Loc{Kind: w.kind, Param: w.param, Global: w.global, Path: w.path, Why: w.what}
+}
 
 func (w effWrite) key() string {
 	// the call chain is deliberately not part of the identity: through a
@@ -514,14 +516,14 @@ type contract struct {
 
 var contracts = map[string]contract{
 	// errors / fmt / strconv / strings / bytes: read-only, fresh results
-	"errors.New":         {fresh: true, aliasArg: -1},
-	"fmt.Errorf":         {fresh: true, aliasArg: -1},
-	"fmt.Sprint":         {fresh: true, aliasArg: -1},
-	"fmt.Sprintf":        {fresh: true, aliasArg: -1},
-	"strconv.FormatInt":  {fresh: true, aliasArg: -1},
-	"strings.Count":      {fresh: true, aliasArg: -1},
-	"bytes.HasPrefix":    {fresh: true, aliasArg: -1},
-	"bytes.Equal":        {fresh: true, aliasArg: -1},
+	"errors.New":        {fresh: true, aliasArg: -1},
+	"fmt.Errorf":        {fresh: true, aliasArg: -1},
+	"fmt.Sprint":        {fresh: true, aliasArg: -1},
+	"fmt.Sprintf":       {fresh: true, aliasArg: -1},
+	"strconv.FormatInt": {fresh: true, aliasArg: -1},
+	"strings.Count":     {fresh: true, aliasArg: -1},
+	"bytes.HasPrefix":   {fresh: true, aliasArg: -1},
+	"bytes.Equal":       {fresh: true, aliasArg: -1},
 	"maps.Clone[" + cosePath + ".ProtectedHeader " + "any any]": {fresh: true, aliasArg: -1},
 	// reflect
 	"reflect.ValueOf":         {fresh: true, aliasArg: -1},
@@ -540,19 +542,19 @@ var contracts = map[string]contract{
 	"(*math/big.Int).Sign":      {fresh: true, aliasArg: -1, panics: "receiver non-nil"},
 	"(*math/big.Int).FillBytes": {writes: []int{1}, aliasArg: 1, panics: "len(buf) >= byte length of receiver"},
 	// crypto
-	"crypto/ecdsa.Sign":                   {fresh: true, aliasArg: -1},
-	"crypto/ecdsa.Verify":                 {fresh: true, aliasArg: -1},
-	"crypto/rsa.VerifyPSS":                {fresh: true, aliasArg: -1},
-	"crypto/ed25519.Verify":               {fresh: true, aliasArg: -1, panics: "len(publicKey) == 32"},
-	"crypto/ed25519.NewKeyFromSeed":       {fresh: true, aliasArg: -1, panics: "len(seed) == 32"},
-	"(*crypto/ecdsa.PublicKey).ECDH":      {fresh: true, aliasArg: -1},
-	"crypto/elliptic.P256":                {fresh: true, aliasArg: -1}, // shared immutable singleton: never written by the package (R18 checks writes separately)
-	"crypto/elliptic.P384":                {fresh: true, aliasArg: -1},
-	"crypto/elliptic.P521":                {fresh: true, aliasArg: -1},
-	"(crypto.Hash).Available":             {fresh: true, aliasArg: -1},
-	"(crypto.Hash).Size":                  {fresh: true, aliasArg: -1, panics: "hash is known"},
-	"(crypto.Hash).New":                   {fresh: true, aliasArg: -1, panics: "hash is available"},
-	"encoding/asn1.Unmarshal":             {writes: []int{1}, fresh: true, aliasArg: -1},
+	"crypto/ecdsa.Sign":                     {fresh: true, aliasArg: -1},
+	"crypto/ecdsa.Verify":                   {fresh: true, aliasArg: -1},
+	"crypto/rsa.VerifyPSS":                  {fresh: true, aliasArg: -1},
+	"crypto/ed25519.Verify":                 {fresh: true, aliasArg: -1, panics: "len(publicKey) == 32"},
+	"crypto/ed25519.NewKeyFromSeed":         {fresh: true, aliasArg: -1, panics: "len(seed) == 32"},
+	"(*crypto/ecdsa.PublicKey).ECDH":        {fresh: true, aliasArg: -1},
+	"crypto/elliptic.P256":                  {fresh: true, aliasArg: -1}, // shared immutable singleton: never written by the package (R18 checks writes separately)
+	"crypto/elliptic.P384":                  {fresh: true, aliasArg: -1},
+	"crypto/elliptic.P521":                  {fresh: true, aliasArg: -1},
+	"(crypto.Hash).Available":               {fresh: true, aliasArg: -1},
+	"(crypto.Hash).Size":                    {fresh: true, aliasArg: -1, panics: "hash is known"},
+	"(crypto.Hash).New":                     {fresh: true, aliasArg: -1, panics: "hash is available"},
+	"encoding/asn1.Unmarshal":               {writes: []int{1}, fresh: true, aliasArg: -1},
 	"(" + cborPath + ".EncOptions).EncMode": {fresh: true, aliasArg: -1},
 	"(" + cborPath + ".DecOptions).DecMode": {fresh: true, aliasArg: -1},
 }
@@ -604,18 +606,18 @@ type invContract struct {
 
 // invokeContracts: interface method calls, by "<iface type>.<method>".
 var invokeContracts = map[string]invContract{
-	"cbor.EncMode.Marshal":    {fresh: true},
-	"cbor.DecMode.Unmarshal":  {writes: []int{1}},
-	"cbor.DecMode.Wellformed": {fresh: true},
-	"Signer.Sign":             {fresh: true}, // foreign implementations: read-only on arguments (assumption); in-package ones are analysed as entry points
-	"Signer.Algorithm":        {fresh: true},
-	"Verifier.Verify":         {fresh: true},
-	"Verifier.Algorithm":      {fresh: true},
-	"crypto.Signer.Sign":      {fresh: true},
-	"crypto.Signer.Public":    {fresh: true},
-	"hash.Hash.Write":         {writes: []int{-1}},
-	"hash.Hash.Sum":           {fresh: true},
-	"error.Error":             {fresh: true},
+	"cbor.EncMode.Marshal":         {fresh: true},
+	"cbor.DecMode.Unmarshal":       {writes: []int{1}},
+	"cbor.DecMode.Wellformed":      {fresh: true},
+	"Signer.Sign":                  {fresh: true}, // foreign implementations: read-only on arguments (assumption); in-package ones are analysed as entry points
+	"Signer.Algorithm":             {fresh: true},
+	"Verifier.Verify":              {fresh: true},
+	"Verifier.Algorithm":           {fresh: true},
+	"crypto.Signer.Sign":           {fresh: true},
+	"crypto.Signer.Public":         {fresh: true},
+	"hash.Hash.Write":              {writes: []int{-1}},
+	"hash.Hash.Sum":                {fresh: true},
+	"error.Error":                  {fresh: true},
 	"crypto/elliptic.Curve.Params": {fresh: true},
 }
 
